@@ -59,6 +59,19 @@ def _check_main(run, P):
     run.do(_agree, run, P)
     run.do(_phases, run, P)
     run.do(_table, run, P)
+    # clash detection works on the declared read / write sets (shared with C08)
+    for r_ in ("C08.reads", "C08.writes"):
+        run.rule_docs.setdefault(r_, "")
+        run.minimum.setdefault(r_, 0)
+    n0_ = len(run.obs)
+    from . import c08 as _c08r
+    run.do(_c08r.reads_writes, run, P, sm.statement_classes(P))
+    for o_ in run.obs[n0_:]:
+        if o_.rule in ("C08.reads", "C08.writes"):
+            o_.rule = "C16.clash"
+    for r_ in ("C08.reads", "C08.writes"):
+        run.rule_docs.pop(r_, None)
+        run.minimum.pop(r_, None)
     # the read sets clash detection works on, and the rebuilding of mapped fields
     # (shared with C08.mapper / C08.ident)
     from . import c08 as _c08
